@@ -256,6 +256,49 @@ def decide(pid, tier, seed, workdir, R, t0):
     runs, ins, outs, fails = analyse(pid, spec, paths, R)
     return conclude(pid, tier, seed, t0, R, spec, proof, runs, ins, outs, fails, workdir)
 
+def shrink_hist(pid, spec, run, f, R, workdir, budget=40):
+    """delta debugging over the operation list of a failing history (scenario `hist`): operations are state-relative, so
+    any sub-list is a meaningful history; a candidate is kept if the SAME oracle sentence still fails on the real code"""
+    plan = R.PLAN_OF.get(getattr(run, 'src', None))
+    if not plan or plan['scen'] != 'hist' or 'proj' in run.kv or os.environ.get('VERIF_NO_SHRINK') == '1':
+        return None
+    idx = sorted({int(r.meta['i']) for r in run.recs if r.meta and str(r.meta.get('i', '')).isdigit()})
+    if len(idx) < 3:
+        return None
+    n0 = max(idx) + 1
+    sentence = f['sentence']
+    a0 = {k: v for k, v in plan['args'].items() if k != 'proj'}
+    a0.update({'n': 1, 'first': run.h, 'setups': run.setup})
+    tries = [0]
+    def fails(keep):
+        if tries[0] >= budget:
+            return None
+        tries[0] += 1
+        a = dict(a0, keep=','.join(map(str, keep)) if keep else 'none')
+        p = os.path.join(workdir, f'shrink_{tries[0]}.lines')
+        R.PLAN_OF[p] = {'scen': 'hist', 'args': {k: v for k, v in a.items() if k not in ('n', 'first')}, 'flags': plan['flags']}
+        R.run_shard(('hist', a, p, tuple(plan['flags'])))
+        _, _, _, fs = analyse(pid, spec, [p], R)
+        for (r2, f2) in fs:
+            if f2.get('sentence') == sentence:
+                return (r2, f2)
+        return None
+    keep, best, n = list(range(n0)), None, 2
+    while len(keep) >= 2 and tries[0] < budget:
+        chunk = max(1, len(keep) // n)
+        reduced = False
+        for i in range(0, len(keep), chunk):
+            cand = keep[:i] + keep[i + chunk:]
+            res = fails(cand)
+            if res:
+                keep, best, n, reduced = cand, res, max(n - 1, 2), True
+                break
+        if not reduced:
+            if chunk == 1:
+                break
+            n = min(len(keep), n * 2)
+    return (keep, best, n0) if best else None
+
 def conclude(pid, tier, seed, t0, R, spec, proof, runs, ins, outs, fails, workdir, extra_cov=None, widen=True):
     known = R.load_known()
     real_fails, known_hits = [], []
@@ -272,7 +315,16 @@ def conclude(pid, tier, seed, t0, R, spec, proof, runs, ins, outs, fails, workdi
     replay = None
     if real_fails:
         run, f = real_fails[0]
-        replay = R.write_replay(pid, 'oracle', run, f, None)
+        extra = None
+        try:
+            sh = shrink_hist(pid, spec, run, f, R, workdir)
+            if sh:
+                keep, (run2, f2), n0 = sh
+                run, f = run2, f2
+                extra = {'shrunk_from_ops': n0, 'shrunk_to_ops': len(keep), 'kept_op_indices': keep}
+        except Exception as e:        # shrinking is a convenience; the unshrunk case is a valid replay
+            extra = {'shrink_error': str(e)[:200]}
+        replay = R.write_replay(pid, 'oracle', run, f, None, extra)
         verdict = 'violation'
     elif proof_broken or corr_broken:
         # widen the search for a concrete failing input before reporting
@@ -417,3 +469,16 @@ PROPS['C10']['ties'] = [(SV, ['Tcs.serverSrc_addSnapshot', 'Tcs.serverSrc_addSna
 PROPS['C11']['ties'] = [(SV, ['Tcs.serverSrc_getSnapshot'], ['server:getSnapshot'])]
 # the clap declarations and the wiring of main
 PROPS['C17']['ties'] = [('Tcs.Proofs.CliSrcTie', ['Tcs.cliSrc_args', 'Tcs.cliSrc_wiring', 'Tcs.cliSrc_resolve'], ['cli:args', 'cli:wiring'])]
+# the HTTP handlers of server/src/api/*.rs, translated statement by statement (tools/handlers2lean.py)
+H_ = 'Tcs.Proofs.HandlerTie.'
+def _add_ties(pid, ties):
+    PROPS[pid].setdefault('ties', [])
+    PROPS[pid]['ties'] = PROPS[pid]['ties'] + ties
+_add_ties('C16', [(H_ + 'ClientId', ['Tcs.handlerSrc_clientIdHeader'], ['handlers:clientIdHeader'])])
+_add_ties('C06', [(H_ + 'Bodies', ['Tcs.handlerSrc_addVersionBody', 'Tcs.handlerSrc_addSnapshotBody'], ['handlers:addVersion', 'handlers:addSnapshot'])])
+_add_ties('C14', [(H_ + 'GetChild', ['Tcs.handlerSrc_getChildVersion'], ['handlers:getChildVersion']),
+                  (H_ + 'GetSnap', ['Tcs.handlerSrc_getSnapshot'], ['handlers:getSnapshot']),
+                  (H_ + 'AddVersion', ['Tcs.handlerSrc_loop', 'Tcs.handlerSrc_ensure'], ['handlers:addVersion'])])
+_add_ties('C15', [(H_ + 'AddVersion', ['Tcs.handlerSrc_addVersion'], ['handlers:addVersion']),
+                  (H_ + 'AddSnapshot', ['Tcs.handlerSrc_addSnapshot'], ['handlers:addSnapshot'])])
+_add_ties('C20', [(H_ + 'Routes', ['Tcs.handlerSrc_routes'], ['handlers:routes', 'handlers:defaultHeaders'])])
